@@ -146,8 +146,9 @@ Proof.
     apply bindR_ok in H as [b [_ H]]. inversion H. destruct (truthy b); reflexivity.
   - (* KPow2 *)
     destruct item; try (inversion H; reflexivity);
-      match type of H with context [to_int ?x] => destruct (to_int x) as [z0|[]] end; try discriminate H;
-      destruct (is_pow2 z0) eqn:E; try discriminate H; inversion H; apply is_pow2_spec; assumption.
+      match type of H with context [to_int ?x] => destruct (to_int x) as [z0|[]] eqn:Ez end; try discriminate H;
+      destruct (is_pow2 z0) eqn:E; try discriminate H; inversion H; subst r; rewrite Ez;
+      apply is_pow2_spec; assumption.
   - (* KEnum *)
     destruct param as [p|]; [|discriminate H].
     set (values := split_on 44 (lower p)) in *.
@@ -675,6 +676,19 @@ Lemma range_lt_variant_accepts_nan_l :
 Proof. intros lo hi. split; [reflexivity|destruct hi; reflexivity]. Qed.
 
 (* ---------------------------------------------------------------------------------------------- *)
+(* pow2: the declared type is "int that is a power of two"; the code returns the item unconverted *)
+Lemma pow2_type_refuted_l :
+  exists m item r, validate_item m n_pow2 item = Ok r /\ is_pow2_int r = false.
+Proof. exists [], (YStr [56]), (YStr [56]). split; vm_compute; reflexivity. Qed.
+
+(* ... it is an int exactly when the input was one *)
+Lemma pow2_int_input_l m z r : validate_item m n_pow2 (YInt z) = Ok r -> is_pow2_int r = true.
+Proof.
+  intro H. pose proof (validate_item_sound _ _ _ _ H) as T.
+  unfold validate_item in H. cbn in H. destruct (is_pow2 z); [|discriminate H]. inversion H; subst r.
+  unfold has_type in T. cbn in T. exact T.
+Qed.
+
 (* 7. the hypotheses of the theorems are satisfiable on non-trivial inputs                           *)
 Definition ex_machine : machine := [([115;119], [[115;49]; [115;50]])].          (* sw: s1 s2 *)
 Definition v_int_0_255 : str := [105;110;116;40;48;44;50;53;53;41].               (* int(0,255) *)
